@@ -121,7 +121,7 @@ func (or *Orchestrator) Service() *Service {
 					wg.Add(1)
 					go func(ss *Service) {
 						defer wg.Done()
-						ec.Add(ss.waitFor(ctx))
+						ec.Add(ss.Wait())
 					}(s)
 					continue
 				}
